@@ -64,6 +64,10 @@ func UpdateTaskState(taskInfoStore api.MetaStore[*meta.TaskInfo], taskID string,
 	newState meta.TaskState, oldStates []meta.TaskState, reason string,
 ) error {
 	ctx := context.Background()
+	if taskID == "" {
+		// an empty id makes the store return every task: never update "the first one"
+		return errors.New("the task id is empty")
+	}
 	infos, err := taskInfoStore.Get(ctx, &meta.TaskInfo{TaskID: taskID}, nil)
 	if err != nil {
 		log.Warn("fail to get the task info", zap.String("task_id", taskID), zap.Error(err))
